@@ -263,6 +263,7 @@ class Ctx:
         self.assumptions = []
         self.violations = []      # (sig, replay_path)
         self.known_hits = {}      # canon(sig) -> (entry, count)
+        self.known_paths = {}
         self.kf = KnownFindings()
         self.samples = []
         self.drift = []
@@ -296,6 +297,16 @@ class Ctx:
         if e is not None:
             ent = self.known_hits.get(key)
             self.known_hits[key] = (e, (ent[1] if ent else 0) + 1)
+            if ent is None:
+                # keep the first case of a listed finding as a replay file too
+                os.makedirs(os.path.join(REPLAYS, self.prop), exist_ok=True)
+                h = hashlib.sha1(key.encode()).hexdigest()[:10]
+                path = os.path.join(REPLAYS, self.prop, f"known-{h}.json")
+                doc = {"property": self.prop, "tier": self.tier, "seed": self.seed, "sig": sig, "what": what, "known_finding": True}
+                doc.update(replay)
+                with open(path, "w") as f:
+                    json.dump(doc, f, indent=1, default=str)
+                self.known_paths[key] = path
             return False
         if key in self._seen_sigs:
             self.add("violations_same_sig_suppressed")
@@ -325,7 +336,7 @@ class Ctx:
         cov.setdefault("samples", self.samples if self.samples else ["(none)"])
         if self.drift:
             cov["model_drift"] = self.drift[:20]
-        cov["known_findings_hit"] = [{"sig": json.loads(k), "cases": n} for k, (e, n) in sorted(self.known_hits.items())]
+        cov["known_findings_hit"] = [{"sig": json.loads(k), "cases": n, "replay": self.known_paths.get(k)} for k, (e, n) in sorted(self.known_hits.items())]
         ev = {"property_id": self.prop, "tier": self.tier, "seed": self.seed, "level": self.level,
               "coverage": cov, "assumptions": self.assumptions,
               "wall_s": round(time.time() - self.t0, 2), "violations": len(self.violations)}
@@ -448,7 +459,7 @@ def vh_all(binary, sub, recs, args=None, jobs=12, timeout=3000, env=None, cwd=No
     return [o for part in outs for o in part]
 
 
-def compile_and_run(vh, programs, workdir, py=None, opt=1, jobs=12, run=True, render=False):
+def compile_and_run(vh, programs, workdir, py=None, opt=1, jobs=12, run=True, render=False, dump=False):
     """programs: list of source strings.  Each is compiled in-process by the real compiler
     (vh check, mode compile) to its own .pyc; accepted ones are executed by `py` (one interpreter
     process per chunk, each module in a fresh namespace, py/verif/pyrun.py).
@@ -480,7 +491,7 @@ def compile_and_run(vh, programs, workdir, py=None, opt=1, jobs=12, run=True, re
             pending = list(part)
             got = {}
             while pending:
-                inp = "\n".join(json.dumps({"id": i, "pyc": recs[i]["pyc"]}) for i in pending) + "\n"
+                inp = "\n".join(json.dumps({"id": i, "pyc": recs[i]["pyc"], "dump": dump}) for i in pending) + "\n"
                 try:
                     p = subprocess.run([py or DEFAULT_PY, runner], input=inp, stdout=subprocess.PIPE, stderr=subprocess.PIPE,
                                        text=True, timeout=600, env=env, cwd=workdir)
